@@ -39,6 +39,7 @@ var alphabet = []string{
 	"peer2dup", // same, the LAST block retransmitted once more
 	"send",     // the application sends a W=0 message, acknowledged
 	"sendW",    // a reply-expected message, acknowledged, left waiting
+	"sendC",    // a W=0 message whose caller gives up (ctx cancelled) while the peer still holds the block's ACK, which then comes
 	"reply",    // the peer replies to the oldest waiting send
 	"t3",       // T3 passes: every waiting send times out
 }
@@ -170,6 +171,32 @@ func run(t *testing.T, cs caseSpec, onLeak func(string)) (key, desc, harness str
 					w.Advance(gap)
 				}
 				want.send++
+			case "sendC":
+				// the peer has the complete message and acknowledges it (late): it went over the line,
+				// whatever the caller's context did meanwhile
+				ctx, cancel := context.WithCancel(context.Background())
+				call := w.Go(func() { _, _ = n.C.SendDataMessage(ctx, 1, 7, false, secs2.A("c")) })
+				w.Advance(gap)
+				if !pe.BidPending() {
+					cancel()
+					bad("line", "%s: the library does not request to send", where)
+					return
+				}
+				blk, _, err := pe.RecvBlock(0)
+				if err != nil || !blk.E {
+					cancel()
+					bad("line", "%s: block: %v (E=%v)", where, err, blk.E)
+					return
+				}
+				w.Advance(gap)
+				cancel()
+				w.Advance(gap)
+				pe.Write(e4.ACK)
+				w.Advance(gap)
+				if !call.Done() {
+					w.Advance(gap)
+				}
+				want.send++
 			case "sendW":
 				call := w.Go(func() { _, _ = n.C.SendDataMessage(context.Background(), 1, 5, true, secs2.A("y")) })
 				w.Advance(gap)
@@ -248,7 +275,7 @@ func check(c *vfw.Ctx, t *testing.T, cs caseSpec) {
 func TestCheck(t *testing.T) {
 	vfw.Main(t, "C20", func(c *vfw.Ctx) {
 		c.Level("model_checking")
-		c.Rule("SECS-I part (E2, real secs1 connection, E4 peer, T3 = 2 s): every history of length <= 3 (thorough 4) over {peer sends a 1-block / 2-block message, the same with the (last) block retransmitted once more after its ACK, application sends W=0 / W=1 (acknowledged), peer replies to the oldest waiting send, T3 passes} x roles active/passive (thorough also host): after every event {in-flight gauge, data-sent, data-received, data-error counters, handler deliveries} equal the documented accounting (a retransmitted block is the same message; S9 notices of the equipment role after T3 count as sends and are received by the peer)")
+		c.Rule("SECS-I part (E2, real secs1 connection, E4 peer, T3 = 2 s): every history of length <= 3 (thorough 4) over {peer sends a 1-block / 2-block message, the same with the (last) block retransmitted once more after its ACK, application sends W=0 / W=1 (acknowledged), application sends W=0 and cancels its context while the peer holds the ACK (which then comes: the message went over the line), peer replies to the oldest waiting send, T3 passes} x roles active/passive (thorough also host): after every event {in-flight gauge, data-sent, data-received, data-error counters, handler deliveries} equal the documented accounting (a retransmitted block is the same message; S9 notices of the equipment role after T3 count as sends and are received by the peer)")
 		c.Assume("testing/synctest virtual time", "sim in-memory network", "E4 peer, ref/e4 block codec", "accounting rules as in the HSMS-SS part (doc comments of hsms.ConnectionMetrics)")
 		if c.Replay != nil {
 			var cs caseSpec
